@@ -159,5 +159,11 @@ func (p *Pool) Put(x interface{}) {
 	c.Point("Put")
 	p.mu.Lock()
 	p.free = append([]interface{}{x}, p.free...)
+	if Cap > 0 && len(p.free) > Cap {
+		p.free = p.free[:Cap] // sync.Pool may drop any object: the oldest is dropped beyond the bound
+	}
 	p.mu.Unlock()
 }
+
+// Cap bounds the controlled free list (0 = unbounded).
+var Cap = 3
